@@ -609,3 +609,123 @@ Proof.
     pose proof (N.mod_lt (len bs) 4 ltac:(discriminate)) as Hm. lia. }
   unfold apaid in H. destruct (fst (cdec PRefl neg t bs budget)) as [u rest| | |]; lia.
 Qed.
+
+(* ---------- 3'. iterations of the reflection decoder, zero-width elements allowed ---------- *)
+
+(* a gate lets at most 4096 iterations through and has read 4 bytes: 1024 iterations per byte *)
+Definition ipaid (bs : bytes) (rc : cres unit * cost) : Prop :=
+  match fst rc with
+  | COk _ rest => iters (snd rc) + 1024 * len rest <= 1024 * len bs
+  | _ => iters (snd rc) <= 1024 * len bs
+  end.
+
+Lemma paid_ipaid mw bs rc : paid mw bs rc -> ipaid bs rc.
+Proof. unfold paid, ipaid. intros [Hi H]. rewrite Hi. destruct (fst rc) as [u rest| | |]; lia. Qed.
+
+Lemma cloop_ipaid (p : bytes -> N -> cres unit * cost) :
+  (forall b bud, ipaid b (p b bud)) ->
+  forall fuel n bs budget acc,
+    match fst (cloop p fuel n bs budget acc) with
+    | COk _ rest => iters (snd (cloop p fuel n bs budget acc)) + 1024 * len rest <= iters acc + n + 1024 * len bs
+    | _ => iters (snd (cloop p fuel n bs budget acc)) <= iters acc + n + 1024 * len bs
+    end.
+Proof.
+  intros Hp fuel. induction fuel as [|f IH]; intros n bs budget acc; cbn [cloop].
+  - destruct (n =? 0); [cbn [fst snd]; lia|]. destruct (budget =? 0); cbn [fst snd]; lia.
+  - destruct (n =? 0) eqn:Hn; [cbn [fst snd]; lia|]. destruct (budget =? 0); [cbn [fst snd]; lia|].
+    pose proof (Hp bs (budget - 1)) as Hp1. unfold ipaid in Hp1.
+    destruct (p bs (budget - 1)) as [r c]. cbn [fst snd] in Hp1.
+    destruct r as [u rest| | |]; cbn [fst snd cadd iters]; try lia.
+    match goal with |- context [cloop p f ?n' rest ?b' ?a'] => specialize (IH n' rest b' a') end.
+    destruct (fst (cloop p f (n - 1) rest (budget - 1 - iters c)
+                     (cadd acc (cadd c {| alloc := 0; iters := 1 |})))) as [u' rest'| | |];
+      cbn [cadd iters] in IH; lia.
+Qed.
+
+Lemma cpair_ipaid pol neg tk tv :
+  (forall b bud, ipaid b (cdec pol neg tk b bud)) ->
+  (forall b bud, ipaid b (cdec pol neg tv b bud)) ->
+  forall b bud, ipaid b (cpair pol neg tk tv b bud).
+Proof.
+  intros Hk Hv b bud. unfold cpair.
+  pose proof (Hk b bud) as Hk1. unfold ipaid in Hk1. destruct (cdec pol neg tk b bud) as [r1 c1].
+  cbn [fst snd] in Hk1. destruct r1 as [u b'| | |]; try exact Hk1.
+  pose proof (Hv b' (bud - iters c1)) as Hv1. unfold ipaid in Hv1.
+  destruct (cdec pol neg tv b' (bud - iters c1)) as [r2 c2]. cbn [fst snd] in Hv1.
+  unfold ipaid. cbn [fst snd cadd iters]. destruct r2 as [u' rest| | |]; lia.
+Qed.
+
+Lemma cgo_ipaid pol neg ts :
+  Forall (fun t => forall bs budget, ipaid bs (cdec pol neg t bs budget)) ts ->
+  forall b bud acc,
+    match fst (cgo pol neg ts b bud acc) with
+    | COk _ rest => iters (snd (cgo pol neg ts b bud acc)) + 1024 * len rest <= iters acc + 1024 * len b
+    | _ => iters (snd (cgo pol neg ts b bud acc)) <= iters acc + 1024 * len b
+    end.
+Proof.
+  intro HF. induction HF as [|t' l Ht HF IH]; intros b bud acc; cbn [cgo].
+  - cbn [fst snd]. lia.
+  - pose proof (Ht b bud) as Ht1. unfold ipaid in Ht1. destruct (cdec pol neg t' b bud) as [r c].
+    cbn [fst snd] in Ht1. destruct r as [u b'| | |]; cbn [fst snd cadd iters]; try lia.
+    specialize (IH b' (bud - iters c) (cadd acc c)).
+    destruct (fst (cgo pol neg l b' (bud - iters c) (cadd acc c))) as [u' rest| | |];
+      cbn [cadd iters] in IH; lia.
+Qed.
+
+Lemma count_gate_refl_count n esz a : count_gate PRefl n esz = Some a -> n <= listValueMaxSize.
+Proof.
+  unfold count_gate. destruct (2 ^ 31 <=? n); [discriminate|].
+  destruct (listValueMaxSize <? n) eqn:Hmax; [discriminate|]. intros _. apply N.ltb_ge in Hmax. exact Hmax.
+Qed.
+
+Lemma cdec_ipaid neg t : forall bs budget, ipaid bs (cdec PRefl neg t bs budget).
+Proof.
+  induction t as [s|t' IH|tk tv IHk IHv|ts IH|name fs IH] using ty_ind2; intros bs budget.
+  - eapply paid_ipaid. apply cdec_scalar.
+  - rewrite cdec_list. unfold ipaid.
+    destruct (cnum_spec 4 bs) as [He|[n [r [He Hl]]]]; rewrite He; [cbn [fst snd czero iters]; lia|].
+    destruct (count_gate PRefl n (elem_size t')) as [a|] eqn:Hc.
+    + pose proof (count_gate_refl_count n _ a Hc) as Hn. unfold listValueMaxSize in Hn.
+      pose proof (cloop_ipaid (cdec PRefl neg t') IH (cfuel r n) n r budget {| alloc := a; iters := 0 |}) as Hloop.
+      rewrite <- Hl.
+      destruct (fst (cloop (cdec PRefl neg t') (cfuel r n) n r budget {| alloc := a; iters := 0 |}))
+        as [u rest| | |]; cbn [iters] in Hloop; lia.
+    + destruct (gate_fail_cases PRefl neg n) as [Hg|Hg]; rewrite Hg; cbn [fst snd czero iters]; lia.
+  - rewrite cdec_map. unfold ipaid.
+    destruct (cnum_spec 4 bs) as [He|[n [r [He Hl]]]]; rewrite He; [cbn [fst snd czero iters]; lia|].
+    destruct (2 ^ 31 <=? n); [cbn [fst snd czero iters]; rewrite <- Hl; lia|].
+    destruct (count_gate PRefl n (elem_size tk + elem_size tv + 8)) as [a|] eqn:Hc.
+    + pose proof (count_gate_refl_count n _ a Hc) as Hn. unfold listValueMaxSize in Hn.
+      pose proof (cloop_ipaid (cpair PRefl neg tk tv) (cpair_ipaid PRefl neg tk tv IHk IHv)
+                    (cfuel r n) n r budget {| alloc := a; iters := 0 |}) as Hloop.
+      rewrite <- Hl.
+      destruct (fst (cloop (cpair PRefl neg tk tv) (cfuel r n) n r budget {| alloc := a; iters := 0 |}))
+        as [u rest| | |]; cbn [iters] in Hloop; lia.
+    + destruct (gate_fail_cases PRefl neg n) as [Hg|Hg]; rewrite Hg; cbn [fst snd czero iters]; lia.
+  - rewrite cdec_tuple. unfold ipaid.
+    pose proof (cgo_ipaid PRefl neg ts IH bs budget czero) as Hgo.
+    destruct (fst (cgo PRefl neg ts bs budget czero)) as [u rest| | |]; cbn [czero iters] in Hgo; lia.
+  - rewrite cdec_struct. unfold ipaid.
+    pose proof (cgo_ipaid PRefl neg (map snd fs) (proj2 (Forall_map _ _ _) IH) bs budget czero) as Hgo.
+    destruct (fst (cgo PRefl neg (map snd fs) bs budget czero)) as [u rest| | |]; cbn [czero iters] in Hgo; lia.
+Qed.
+
+Theorem cdec_iters_refl : forall neg t bs budget,
+  iters (snd (cdec PRefl neg t bs budget)) <= (len bs / 4 + 1) * listValueMaxSize + len bs.
+Proof.
+  intros neg t bs budget. pose proof (cdec_ipaid neg t bs budget) as H. unfold ipaid in H.
+  pose proof (N.div_mod (len bs) 4 ltac:(discriminate)) as Hdm.
+  pose proof (N.mod_lt (len bs) 4 ltac:(discriminate)) as Hm. unfold listValueMaxSize.
+  destruct (fst (cdec PRefl neg t bs budget)) as [u rest| | |]; lia.
+Qed.
+
+Print Assumptions cdec_no_panic.
+Print Assumptions cdec_alloc_refl.
+Print Assumptions cdec_alloc_sig.
+Print Assumptions cdec_iters_wfz.
+Print Assumptions cdec_budget_enough.
+Print Assumptions cdec_iters_refl.
+Print Assumptions cdec_gen_alloc_refuted.
+Print Assumptions cdec_gen_alloc_unbounded.
+Print Assumptions cdec_sig_spin_refuted.
+Print Assumptions cdec_refl_panic_refuted.
